@@ -3,6 +3,7 @@ spec-conformant binary files with the independent encoder refbin.py, varying eve
 document leaves open, plus the documented skip / widening cases. The files are then decoded by
 the real reader (`vh readcmp`) and compared with `expected`."""
 import copy, hashlib, json, os, random, struct, sys
+sys.setrecursionlimit(20000)  # trees of the size scenarios are hundreds of levels deep
 
 sys.path.insert(0, os.path.dirname(os.path.dirname(os.path.abspath(__file__))))
 import refbin, refattr  # noqa: E402
